@@ -55,7 +55,10 @@ def demo(sid, scr):
 
 def confirm_one(sid):
     clean = scratch(sid, patched=False)
-    pat = scratch(sid)
+    try:
+        pat = scratch(sid)
+    except RuntimeError as ex:
+        return 'STALE   %s  %s' % (sid, str(ex)[:120].replace('\n', ' '))
     try:
         c0, t0 = demo(sid, clean)
         c1, t1 = demo(sid, pat)
@@ -71,7 +74,10 @@ def confirm_one(sid):
 
 def run_one(arg):
     sid, tier, props = arg
-    pat = scratch(sid)
+    try:
+        pat = scratch(sid)
+    except RuntimeError as ex:
+        return 'STALE   %s  %s' % (sid, str(ex)[:120].replace('\n', ' '))
     out = []
     try:
         for prop in props:
